@@ -3,6 +3,7 @@
 // Integer problems with integer minimisers: Y = J z* + r with J^T r = 0 (r lives on duplicated rows),
 // preconditioner x = A z + b with integer diagonal A.
 #include "vh.hpp"
+#include <Eigen/SVD>
 #include <memory>
 #include <Eigen/Dense>
 #include "romea_core_common/regression/leastsquares/LeastSquares.hpp"
@@ -30,8 +31,10 @@ static void exec(vh::Rng & r, vh::Out & out)
   IV A(est, 1), B(est, 0);
   int nproblems = (int)r.range(1, 5);
   for (int p = 0; p < nproblems; ++p) {
-    // float: keep the normal matrix well conditioned (its condition number grows with the number of rows)
-    int n = (int)((sizeof(R) == 8 && r.coin(1, 12)) ? r.range(est, 500) : r.range(est, est + 30));
+    // data sizes: mostly small, sometimes anywhere up to 500, sometimes at / next to the block sizes a vectorised or blocked
+    // reduction would use (powers of two, multiples of 128) and at the top of the quantified range
+    int n = (int)(r.coin(1, 12) ? r.range(est, 500) : r.coin(1, 10) ? r.pick(IV{16, 32, 64, 127, 128, 129, 255, 256, 257, 383, 384, 385, 499, 500}) :
+      r.range(est, est + 30));
     bool grew = ls->setDataSize(n);
     out.put(vh::Ev("setDataSize").i("n", n).b("grew", grew));
     if ((size_t)n > cap) {cap = n;}
@@ -58,6 +61,11 @@ static void exec(vh::Rng & r, vh::Out & out)
     // the whole problem (J and Y) scaled by a power of two: the minimiser is unchanged, the arithmetic stays exact
     const double pscale = r.coin(1, 4) ? (sizeof(R) == 8 ? r.pick(std::vector<double>{std::ldexp(1.0, -23), std::ldexp(1.0, -12), 1024.0}) :
       r.pick(std::vector<double>{std::ldexp(1.0, -12), 64.0})) : 1.0;
+    // one or two columns of J scaled by 2^-c (the minimiser scales by 2^c, exactly): condition numbers up to the top of the
+    // quantified range (double) / up to where the float normal equations still determine the answer.  Only without preconditioner.
+    std::vector<int> cs(est, 0);
+    bool identityPre = true; for (int k = 0; k < est; ++k) {identityPre = identityPre && A[k] == 1 && B[k] == 0;}
+    const bool colscale = identityPre && est >= 2 && pscale == 1.0 && r.coin(1, 3);
     for (int i = 0; i < n; ++i) {
       if (i < est) {rows[i][i] = r.range(1, 3);} else if (i % 2 == 1 && i > est && r.coin()) {rows[i] = rows[i - 1];}      // duplicated row
       else {for (auto & v : rows[i]) {v = r.range(-3, 3);}}
@@ -71,11 +79,26 @@ static void exec(vh::Rng & r, vh::Out & out)
     for (int i = est + 1; i < n; ++i) {             // residual +t / -t on a duplicated pair: J^T r = 0
       if (rows[i] == rows[i - 1] && i % 2 == 1) {long long t = r.range(-5, 5); y[i] += t; y[i - 1] -= t; w[i] = w[i - 1];}
     }
+    if (colscale) {
+      const double limit = sizeof(R) == 4 ? 450.0 : 5.0e5;
+      auto condOf = [&]() {
+          Eigen::MatrixXd M(n, est), Mw(n, est);
+          for (int i = 0; i < n; ++i) {for (int k = 0; k < est; ++k) {M(i, k) = std::ldexp((double)rows[i][k], -cs[k]); Mw(i, k) = M(i, k) * (double)w[i];}}
+          Eigen::JacobiSVD<Eigen::MatrixXd> s1(M), s2(Mw);
+          return std::max(s1.singularValues()(0) / s1.singularValues()(est - 1), s2.singularValues()(0) / s2.singularValues()(est - 1));
+        };
+      int k1 = (int)r.range(0, est - 1), k2 = (int)r.range(0, est - 1);
+      const int cmax = sizeof(R) == 4 ? 9 : 20;
+      cs[k1] = r.coin() ? cmax : (int)r.range(0, cmax);
+      if (r.coin(1, 3)) {cs[k2] = (int)r.range(0, cs[k1]);}
+      while (cs[k1] > 0 && !(condOf() <= limit)) {--cs[k1]; if (cs[k2] > cs[k1]) {cs[k2] = cs[k1];}}
+      if (!(condOf() <= limit)) {for (auto & c : cs) {c = 0;}}
+    }
     // fill in a shuffled order
     std::vector<int> order(n); for (int i = 0; i < n; ++i) {order[i] = i;}
     for (int i = n - 1; i > 0; --i) {std::swap(order[i], order[(size_t)r.range(0, i)]);}
     for (int i : order) {
-      for (int k = 0; k < est; ++k) {ls->getJ()(i, k) = (R)(rows[i][k] * pscale);}
+      for (int k = 0; k < est; ++k) {ls->getJ()(i, k) = (R)std::ldexp(rows[i][k] * pscale, -cs[k]);}
       ls->getY()(i) = (R)(y[i] * pscale);
       out.put(vh::Ev("fill").i("i", i + 1).vec("j", rows[i]).i("y", y[i]));
       if (weighted || w[i] != 1 || r.coin(1, 10)) {
@@ -86,16 +109,24 @@ static void exec(vh::Rng & r, vh::Out & out)
     int nest = (int)r.range(1, 3);
     for (int q = 0; q < nest; ++q) {
       std::string how = weighted && q == 0 ? "weighted" : (r.coin() ? "svd" : "chol");
-      typename LeastSquares<R>::Vector x = how == "weighted" ? ls->weightedEstimate() : how == "svd" ? ls->estimateUsingSVD() :
+      // the SVD path works on J^T J: its rounding error grows with the square of the condition number of the rows as held
+      double tolq = tol;
+      if (how == "svd") {
+        Eigen::MatrixXd M = ls->getJ().topRows(n).template cast<double>();
+        Eigen::JacobiSVD<Eigen::MatrixXd> sv(M);
+        const double cond = sv.singularValues()(0) / sv.singularValues()(est - 1);
+        tolq = std::max(tol, 40.0 * (double)std::numeric_limits<R>::epsilon() * cond * cond);
+      }
+      typename LeastSquares<R>::Vector xq = how == "weighted" ? ls->weightedEstimate() : how == "svd" ? ls->estimateUsingSVD() :
         ls->estimateUsingCholeskyDecomposition();
       IV xi; bool ok = true;
       for (int k = 0; k < est; ++k) {
-        double v = (double)x(k), rv = std::nearbyint(v);
-        if (!(std::fabs(v - rv) <= tol * std::max(1.0, std::fabs(rv)))) {ok = false;}
+        double v = std::ldexp((double)xq(k), -cs[k]), rv = std::nearbyint(v);
+        if (!(std::fabs(v - rv) <= tolq * std::max(1.0, std::fabs(rv)))) {ok = false;}
         xi.push_back(std::isfinite(rv) && std::fabs(rv) < 1e9 ? (long long)rv : 0);
       }
       out.put(vh::Ev("estimate").str("how", how).vec("x", xi).b("exact", ok));
-      if (est <= 2 && n <= 60 && pscale == 1.0) {
+      if (est <= 2 && n <= 60 && pscale == 1.0 && !colscale) {
         long long var = r.pick(IV{1, 2, 4});
         auto C = ls->computeEstimateCovariance((R)var);
         // J^T J of the rows as the solver now holds them (weights applied once after weightedEstimate)
